@@ -152,6 +152,13 @@ func (n *UDFNode) abortedCallback() {
 }
 
 func (n *UDFNode) snapshot() ([]byte, error) {
+	n.mu.Lock()
+	opened := n.opened
+	n.mu.Unlock()
+	if !opened {
+		// The UDF is still being opened, it has no state yet.
+		return nil, nil
+	}
 	return n.udf.Snapshot()
 }
 
